@@ -488,6 +488,11 @@ def type_branch_obligations(ctx, rule, rid):
     for gt in ("geoshape", "geotrace"):
         check(gt, {"allow-mock-accuracy": "true"}, {"odk:allow-mock-accuracy": "true"}, {}, 0)
         check(gt, {"capture-accuracy": "5"}, {}, {}, 0, reject=True)
+        check(gt, {"warning-accuracy": "5"}, {}, {}, 0, reject=True)
+    # the accepted set of each branch is closed: a parameter of another branch, or an unknown one, is refused
+    for qt_, foreign_ in (("photo", {"rows": "3"}), ("audio", {"max-pixels": "640"}), ("audio", {"app": "x.y"}), ("background-audio", {"max-pixels": "640"}),
+                          ("geopoint", {"quality": "low"}), ("geopoint", {"foo": "1"}), ("geoshape", {"foo": "1"}), ("geotrace", {"quality": "low"})):
+        check(qt_, foreign_, {}, {}, 0, reject=True)
 
 
 def toplevel_slice(fi, block, provided, module_has):
